@@ -119,6 +119,7 @@ func (s *Sched) Run(tasks []func(e *Env)) {
 	ticker := time.NewTicker(2 * time.Second)
 	defer ticker.Stop()
 	last, idle := atomic.LoadUint64(&s.tick), 0
+	lastChild, childOnly := libraryGoroutineTicks(), 0
 wait:
 	for {
 		select {
@@ -127,7 +128,13 @@ wait:
 		case <-ticker.C:
 			cur := atomic.LoadUint64(&s.tick)
 			if cur != last {
-				last, idle = cur, 0
+				last, idle, childOnly = cur, 0, 0
+				continue
+			}
+			if ct := libraryGoroutineTicks(); ct != lastChild && childOnly < 100 {
+				// the running party waits for goroutines the library started, and they move
+				lastChild, idle = ct, 0
+				childOnly++
 				continue
 			}
 			idle++
